@@ -142,6 +142,17 @@ def run(ctx: C.Ctx):
     # index-addressed cases (ctx.only) can skip the string-level part without changing what it generates
     e2e_rng = random.Random(ctx.rng.getrandbits(64))
     nest_rng = random.Random(ctx.rng.getrandbits(64))
+    # part E: the clauses under other interpreter settings (python -O / -OO / -X dev / ...), in child interpreters that run next to
+    # the parts below (c08_proc.py)
+    from harness.props import c08_proc
+    children = c08_proc.start(ctx)
+    try:
+        _run_parts(ctx, e2e_rng, nest_rng)
+    finally:
+        c08_proc.collect(ctx, children)
+
+
+def _run_parts(ctx, e2e_rng, nest_rng):
     if ctx.only is None:
         _run_strings(ctx)
     try:
